@@ -7,14 +7,15 @@ State: the wallet DB's account-UTXO records (`confirmed`, in key order), the kee
 
 Faithful points (see notes/C26.md):
 * `findUtxos` lists the DB records first and then, when `useUnconfirmed`, the unconfirmed
-  map — an output present in both is listed TWICE (F16).
+  map; a matching output id is listed ONCE (first occurrence; fix 58d747bb of F16).
 * `optUTXOs`: sort by amount descending (Go's `sort.Slice` is not stable: the model takes
   the sort as a parameter `sortFn`; every theorem holds for every permutation-valued
   `sortFn`), drop reserved outputs (summing them), greedy fill until `optAmount ≥ amount`,
   then the "replace the largest" refinement with Go's `int` comparison
   `replaceList.Len() <= desireUtxoCount - optList.Len()`.
-* `Reserve(amount = 0)` with at least one unreserved candidate dereferences
-  `optList.Front()` of an empty list: nil-pointer panic → `Outcome.panic`.
+* `Reserve(amount = 0)`: `optList.Front()` is nil on the first candidate and the loop breaks
+  (fix ac748781): success with an empty selection. `Outcome.panic` is kept in the type and
+  proved unreachable (`reserve_never_panics`).
 * amounts are `Nat` (no uint64 wrap-around): the model's domain is keeper states in which
   the sum of all candidate amounts is below 2^64 (recorded as an assumption).
 Core Lean only.
@@ -78,12 +79,17 @@ def matchesReq (acct asset vote : Nat) (u : Utxo) : Bool :=
   u.account == acct && u.asset == asset && u.vote == vote
 
 /-- every record `findUtxos` visits, in visiting order: the standard-key DB records, then
-    (if asked) the unconfirmed map. No de-duplication — as the code. -/
+    (if asked) the unconfirmed map. -/
 def listed (k : Keeper) (useUnc : Bool) : List Utxo :=
   k.confirmed.filter (fun u => !u.contract) ++ (if useUnc then k.unconfirmed else [])
 
+/-- first occurrence of every output id (the `listed` map of `findUtxos`) -/
+def distinctById : List Utxo → List Utxo
+  | [] => []
+  | u :: rest => u :: (distinctById rest).filter (fun v => v.id != u.id)
+
 def matching (k : Keeper) (acct asset : Nat) (useUnc : Bool) (vote : Nat) : List Utxo :=
-  (listed k useUnc).filter (matchesReq acct asset vote)
+  distinctById ((listed k useUnc).filter (matchesReq acct asset vote))
 
 def mature (k : Keeper) (u : Utxo) : Bool := decide (u.validHeight ≤ k.height)
 
@@ -114,13 +120,14 @@ def replDecide (amount : Nat) (n : Utxo) (optLen : Nat) (tl : List Utxo) (rl : L
   else .stop
 
 /-- the selection loop of `optUTXOs` over the unreserved candidates (already sorted).
-    `none` = nil-pointer panic (`optList.Front()` of an empty list). -/
+    `none` = nil-pointer panic; only in the inner-loop mode with an empty selection, which
+    never arises (`sel_some`). -/
 def sel (amount : Nat) : List Utxo → List Utxo → Nat → Mode → Option (List Utxo × Nat)
   | [], opt, a, _ => some (opt, a)
   | n :: rest, opt, a, .fill =>
     if a < amount then sel amount rest (opt ++ [n]) (a + n.amount) .fill
     else match opt with
-      | [] => none
+      | [] => some (opt, a)   -- `largestNode == nil`: break
       | l :: tl =>
         match replDecide amount n opt.length tl [] (a - l.amount) with
         | .stop => some (opt, a)
